@@ -38,4 +38,4 @@ Extraction "moc_model.ml"
   AsciiMoc.elems_of_cells AsciiMoc.ranges_of_elems
   FitsCodec.fits_write FitsCodec.fits_read FitsCodec.fits_write_st FitsCodec.fits_write_nuniq FitsCodec.mom_read FitsCodec.sky_read
   MocSetBytes.file_bytes MocSetBytes.decode_file MocSetBytes.append_steps MocSetBytes.purge_tmp_files MocSetBytes.kept_of
-  JsonCodec.to_json JsonCodec.st_to_json.
+  JsonCodec.to_json JsonCodec.st_to_json JsonCodec.from_json JsonCodec.st_from_json.
